@@ -77,6 +77,8 @@ func optionSets() []optSet {
 	}
 }
 
+var maxStringBytes, longMultibyteStrings atomic.Int64
+
 var pathRe = regexp.MustCompile(`^[a-z]+([.][a-z]+){0,2}$`)
 
 // validate walks the generated message (through the reference view) and returns the first problem.
@@ -131,6 +133,12 @@ func validate(m protoreflect.Message, os optSet, depth int, insideAny bool) stri
 		checkScalar := func(sfd protoreflect.FieldDescriptor, v protoreflect.Value) string {
 			switch sfd.Kind() {
 			case protoreflect.StringKind:
+				if n := int64(len(v.String())); n > maxStringBytes.Load() {
+					maxStringBytes.Store(n)
+				}
+				if len(v.String()) > 64 && utf8.RuneCountInString(v.String()) < len(v.String()) {
+					longMultibyteStrings.Add(1)
+				}
 				if !utf8.ValidString(v.String()) {
 					return fmt.Sprintf("field %s holds an invalid UTF-8 string %q", sfd.FullName(), v.String())
 				}
@@ -303,6 +311,7 @@ func targets() []target {
 		{"mx.One", gen(mk("mx.One"))},
 		{"mx.ChainL", gen(mk("mx.ChainL"))},
 		{"mx.Anys", gen(mk("mx.Anys"))},
+		{"B", gen(&testpb.B{})}, // one string field: long strings are reached through periodic streams, see below
 	}
 }
 
@@ -448,7 +457,7 @@ func runOne(t *testing.T, h *hz.H, tg target, os optSet, c c18case, stream []byt
 		before, _ := proto.MarshalOptions{Deterministic: true}.Marshal(msg)
 		// later runs on each base stream (payloads of other sizes and contents), then on the same stream again
 		for _, bn := range baseOrder {
-			generate(t, tg, os, mkStream(bases[bn], c.Horizon, nil, nil))
+			generate(t, tg, os, mkStream(basePattern(bn), c.Horizon, nil, nil))
 		}
 		generate(t, tg, os, stream)
 		after, _ := proto.MarshalOptions{Deterministic: true}.Marshal(msg)
@@ -478,11 +487,25 @@ func devDesc(c c18case) string {
 	return fmt.Sprintf(" with words %v at positions %v", c.Words, c.Pos)
 }
 
-func mkStream(base uint64, horizon int, pos []int, words []uint64) []byte {
+// basePattern: "all-..." names a constant stream; "p:w1,w2[,w3]" (hex words) a periodic one.
+func basePattern(name string) []uint64 {
+	if w, ok := bases[name]; ok {
+		return []uint64{w}
+	}
+	var out []uint64
+	for _, f := range strings.Split(strings.TrimPrefix(name, "p:"), ",") {
+		var w uint64
+		fmt.Sscanf(f, "%x", &w)
+		out = append(out, w)
+	}
+	return out
+}
+
+func mkStream(pattern []uint64, horizon int, pos []int, words []uint64) []byte {
 	b := make([]byte, 8*horizon)
-	if base != 0 {
-		for i := 0; i < horizon; i++ {
-			binary.LittleEndian.PutUint64(b[8*i:], base)
+	for i := 0; i < horizon; i++ {
+		if w := pattern[i%len(pattern)]; w != 0 {
+			binary.LittleEndian.PutUint64(b[8*i:], w)
 		}
 	}
 	for i, p := range pos {
@@ -507,7 +530,7 @@ func TestC18(t *testing.T) {
 		for _, tg := range tgs {
 			for _, os := range oss {
 				if tg.name == c.Type && os.name == c.Options {
-					runOne(t, h, tg, os, c, mkStream(bases[c.Base], c.Horizon, c.Pos, c.Words))
+					runOne(t, h, tg, os, c, mkStream(basePattern(c.Base), c.Horizon, c.Pos, c.Words))
 				}
 			}
 		}
@@ -541,6 +564,46 @@ func TestC18(t *testing.T) {
 			for _, os := range oss {
 				if tg.name == "google.protobuf.Any" && !os.anyTypes {
 					continue // an Any cannot be generated without AnyTypeURLs: unsatisfiable option set, not judged
+				}
+				// a string costs four words per rune in rapid v1.1.0: continue? (a float: all-ones continues, zero stops), rune table
+				// (low bits of the word), bit length of the index (a float: 0 -> 1 bit, ~1 -> the table's last rune), index bits.
+				// Every stream repeating (continue, table t, length word g, index word i) for t < 32, 3 g, 5 i - in each of its 4
+				// rotations - with one stopping word at every position < P yields strings of one rune repeated 0..~40 times,
+				// for every reachable rune table (1- to 4-byte runes). Single string field only.
+				if tg.name == "B" && os.name == "zero" {
+					for t := uint64(0); t < 32; t++ {
+						for _, g := range []uint64{0, 1 << 52, 1<<53 - 1} {
+							for _, ix := range []uint64{0, 1, 3, 0x7f, ^uint64(0)} {
+								pat := []uint64{^uint64(0), t, g, ix}
+								for rot := 0; rot < 4; rot++ {
+									name := fmt.Sprintf("p:%x,%x,%x,%x", pat[rot%4], pat[(rot+1)%4], pat[(rot+2)%4], pat[(rot+3)%4])
+									for p := 0; p < P; p++ {
+										if !emit(job{tg, os, name, []int{p}, []uint64{0}}) {
+											return
+										}
+									}
+								}
+							}
+						}
+					}
+				}
+				// periodic streams (period 2; thorough: also period 3) over the boundary words, run as they are
+				for _, w1 := range devWords {
+					for _, w2 := range devWords {
+						if w1 == w2 {
+							continue
+						}
+						if !emit(job{tg, os, fmt.Sprintf("p:%x,%x", w1, w2), nil, nil}) {
+							return
+						}
+						if h.Thorough() {
+							for _, w3 := range devWords {
+								if !emit(job{tg, os, fmt.Sprintf("p:%x,%x,%x", w1, w2, w3), nil, nil}) {
+									return
+								}
+							}
+						}
+					}
 				}
 				for _, bn := range baseOrder {
 					if !emit(job{tg, os, bn, nil, nil}) {
@@ -578,7 +641,7 @@ func TestC18(t *testing.T) {
 		j := it.(job)
 		c := c18case{Type: j.tg.name, Options: j.os.name, Base: j.base, Pos: j.pos, Words: j.w, Horizon: H}
 		total.Add(1)
-		switch runOne(t, h, j.tg, j.os, c, mkStream(bases[j.base], H, j.pos, j.w)) {
+		switch runOne(t, h, j.tg, j.os, c, mkStream(basePattern(j.base), H, j.pos, j.w)) {
 		case beyondHorizon:
 			beyond.Add(1)
 			// branching-factor-1 recursion and the minimal stream must terminate well inside the horizon
@@ -599,11 +662,13 @@ func TestC18(t *testing.T) {
 	h.Rep.Transitions = total.Load()
 	h.Rep.Traces = done.Load()
 	h.AddExtra("runs_completed", done.Load())
+	h.AddExtra("longest_generated_string_bytes", maxStringBytes.Load())
+	h.AddExtra("generated_strings_longer_than_64_bytes_with_multibyte_runes", longMultibyteStrings.Load())
 	h.AddExtra("runs_beyond_horizon_not_judged", beyond.Load())
 	if done.Load() < 1000 {
 		h.InternalError("vacuous: fewer than 1000 generator runs completed")
 	}
-	h.Rep.Rule = "the generator is a deterministic function of rapid's word stream (one 64-bit word per drawBits); for each (type, option set, base stream in {all-zero, all-1, all-2^52, all-ones}) EVERY stream differing from the base in <=k of the first P positions by one of 13 boundary words (thorough: plus pairs over the first 24x48 positions) is run through the real generator (rapid.MakeFuzz) and the generated message validated; state = word stream, transition = one generator run; runs that exhaust the horizon are counted and not judged except where the fan-out is 1 (termination); distinct = hash(type, options, generated encoding)"
+	h.Rep.Rule = "the generator is a deterministic function of rapid's word stream (one 64-bit word per drawBits); for each (type, option set): every periodic stream of period 2 (thorough: 3) over the 13 boundary words as it is (for the single-string target B: every stream repeating (continue, rune table t<32, index-length word, index word) in each rotation with one stopping word at every position < P), and for each base stream in {all-zero, all-1, all-2^52, all-ones} EVERY stream differing from the base in <=k of the first P positions by one of 13 boundary words (thorough: plus pairs over the first 24x48 positions) is run through the real generator (rapid.MakeFuzz) and the generated message validated; state = word stream, transition = one generator run; runs that exhaust the horizon are counted and not judged except where the fan-out is 1 (termination); distinct = hash(type, options, generated encoding)"
 	h.Rep.Assumptions = []string{"rapid v1.1.0 bufBitStream: each drawBits consumes one little-endian uint64 from the supplied buffer; an exhausted buffer aborts the run as invalid data", "lenient readings: behaviour beyond rapidproto's depthLimit and Any fields when no AnyTypeURLs are configured are not judged"}
 	h.Finish()
 }
